@@ -181,6 +181,27 @@ fn verif_grid() {
     // a missing join column or joined file is an error, never an empty result
     g.case("missing-file", || match q(DEF, "SELECT user FROM t INNER JOIN hosts::'/nonexistent/verif_grid_no_such_file' ON t.host = hosts.name", &["u=ann h=alpha c=1"]) {
         Outcome::Error(_) => Ok(()), other => Err(format!("a missing joined file gives {:?}", other)) });
+    // column names are case sensitive: `Host` and `host` are two columns, and `HOST` is none
+    g.case("columns-that-differ-in-case", || {
+        let def = "CREATE TABLE hits(line = '^H=(\\\\w+) h=(\\\\w+) p=(\\\\w+)$', line[1] => Host TEXT, line[2] => host TEXT, line[3] => path TEXT); \
+                   CREATE TABLE machines(line = '^R=(\\\\w+) r=(\\\\w+) room=(\\\\w+)$', line[1] => Host TEXT, line[2] => host TEXT, line[3] => room TEXT);";
+        let file = write_temp("joined", &join_lines(&["R=a r=b room=one", "R=b r=a room=two", "R=c r=c room=three"]));
+        let lines = ["H=a h=b p=x", "H=c h=a p=y", "H=z h=c p=w"];
+        let mut result = Ok(());
+        for (on, want) in [("hits.host = machines.host", vec![("x", "one"), ("y", "two"), ("w", "three")]), ("hits.Host = machines.Host", vec![("x", "one"), ("y", "three")]),
+                           ("hits.Host = machines.host", vec![("x", "two"), ("y", "three")]), ("machines.Host = hits.host", vec![("x", "two"), ("y", "one"), ("w", "three")])] {
+            let query = format!("SELECT path, machines.room FROM hits INNER JOIN machines::'{}' ON {}", file.display(), on);
+            let expected: Vec<String> = want.iter().map(|(p, r)| format!("{{\"path\":\"{}\",\"machines.room\":\"{}\"}}", p, r)).collect();
+            match q(def, &query, &lines) { Outcome::Lines(l, _) => if l != expected { result = Err(format!("ON {} over {:?} and the joined rows R=a r=b / R=b r=a / R=c r=c printed {:?}; the pairs with equal keys are {:?}", on, lines, l, expected)); break; }, other => { result = Err(format!("ON {}: {:?}", on, other)); break; } }
+        }
+        if result.is_ok() {
+            for on in ["hits.HOST = machines.host", "hits.host = machines.HOST"] {
+                match q(def, &format!("SELECT path FROM hits INNER JOIN machines::'{}' ON {}", file.display(), on), &lines) { Outcome::Error(_) => {}, other => { result = Err(format!("ON {} (no column of that spelling) gives {:?}", on, other)); break; } }
+            }
+        }
+        let _ = std::fs::remove_file(&file);
+        result
+    });
     for (i, cond) in ["t.nohost = hosts.name", "t.host = hosts.noname"].iter().enumerate() {
         g.case(&format!("missing-column-{}", i), move || {
             let file = write_temp("joined", &join_lines(&["h=alpha site=eu c=1"]));
